@@ -2,7 +2,7 @@
    executable check, and the refutations of the code before the fix. *)
 From Coq Require Import List NArith Bool Lia Permutation PeanoNat.
 From K.Model Require Import C17.
-From K.Proof Require Import C17_base C17_inv.
+From K.Proof Require Import C17_base C17_inv C17_just.
 Import ListNotations.
 Local Open Scope N_scope.
 
@@ -210,10 +210,84 @@ Proof.
 Qed.
 
 (* ---------- T4: success only for a blob that has been in the cache since the call ---------- *)
-Theorem success_justified c kn ops w :
+Theorem success_seen c kn ops w :
   In (w, RNil) (results (run c kn ops)) -> In w (seen (run c kn ops)).
 Proof.
   destruct (Inv_run c kn ops) as (K & _). unfold Core in K. destruct K as [_ _ _ _ _ _ _ Knil]. apply Knil.
+Qed.
+
+(* ---------- T4b: success only when the blob is then in the cache ---------- *)
+Lemma casa_app c w h : forall a s armed b,
+  cached_after_some_apply c w h s armed (a ++ b) =
+  cached_after_some_apply c w h s armed a ||
+  cached_after_some_apply c w h (fold_left (step c) a s) (armed || memb w (callers a)) b.
+Proof.
+  induction a as [|o t IH]; intros s armed b.
+  - cbn [app cached_after_some_apply fold_left callers memb existsb]. now rewrite orb_false_r.
+  - cbn [app cached_after_some_apply fold_left]. rewrite IH, orb_assoc. f_equal. f_equal.
+    destruct o; cbn [callers]; rewrite ?orb_false_r; try reflexivity.
+    unfold memb. cbn [existsb]. now rewrite orb_assoc.
+Qed.
+
+Fixpoint dl (ops : list op) : list (N * N) :=
+  match ops with
+  | [] => []
+  | Download w h :: t => (w, h) :: dl t
+  | _ :: t => dl t
+  end.
+
+Lemma map_fst_dl ops : map fst (dl ops) = callers ops.
+Proof. induction ops as [|o t IH]; [reflexivity|]. destruct o; cbn [dl callers map fst]; now rewrite ?IH. Qed.
+
+Lemma calls_fold_pairs c ops : forall s, calls (fold_left (step c) ops s) = rev (dl ops) ++ calls s.
+Proof.
+  induction ops as [|o t IH]; intros s; cbn [fold_left dl]; [reflexivity|].
+  rewrite IH, calls_step. destruct o; try reflexivity.
+  cbn [dl rev]. now rewrite <- app_assoc.
+Qed.
+
+Lemma hash_of_call_in w h ops : NoDup (callers ops) -> In (w, h) (dl ops) -> hash_of_call w ops = h.
+Proof.
+  induction ops as [|o t IH]; [intros _ []|].
+  destruct o; cbn [callers dl hash_of_call]; try exact IH.
+  intros Hnd [E|Hi].
+  - inversion E; subst. now rewrite N.eqb_refl.
+  - inversion Hnd as [|? ? Hni Hnd']; subst. destruct (N.eqb_spec w w0) as [->|Hne]; [|now apply IH].
+    exfalso. apply Hni. rewrite <- map_fst_dl. apply in_map_iff. now exists (w0, h).
+Qed.
+
+Lemma PS_run c kn hist :
+  PS (fun h => evicted_in h hist = true)
+     (fun w h => cached_after_some_apply c w h (init kn) false hist = true) (run c kn hist).
+Proof.
+  induction hist as [|o hist IH] using rev_ind.
+  - constructor; cbn; try constructor; intros; contradiction.
+  - assert (Er : run c kn (hist ++ [o]) = step c (run c kn hist) o).
+    { unfold run, run_gen. now rewrite fold_left_app. }
+    rewrite Er. eapply PS_step; [apply Inv_run | exact IH | | | | ].
+    + intros h H. unfold evicted_in in *. rewrite existsb_app, H. reflexivity.
+    + intros w h H. now rewrite casa_app, H.
+    + intros h ->. unfold evicted_in. rewrite existsb_app. cbn [existsb]. rewrite N.eqb_refl.
+      now rewrite orb_true_r.
+    + intros w h Hw Ho Hm. rewrite casa_app. apply orb_true_iff. right.
+      change (fold_left (step c) hist (init kn)) with (run c kn hist).
+      cbn [cached_after_some_apply orb]. rewrite Hm, orb_false_r, andb_true_r.
+      assert (Ha : memb w (callers hist) || match o with Download w' _ => w =? w' | _ => false end = true).
+      { rewrite calls_step in Hw.
+        assert (Hc : forall x, In x (map fst (calls (run c kn hist))) -> memb x (callers hist) = true).
+        { intros x Hx. rewrite calls_run in Hx. apply memb_In. now apply in_rev. }
+        destruct o; try (rewrite (Hc w Hw); reflexivity).
+        cbn [map fst] in Hw. destruct Hw as [<-|Hw]; [now rewrite N.eqb_refl, orb_true_r | now rewrite (Hc w Hw)]. }
+      rewrite Ha. cbn [andb]. destruct Ho as [Ho|(h' & ->)]; [now rewrite Ho | now rewrite N.eqb_refl, orb_true_r].
+Qed.
+
+Theorem success_when_cached c kn ops w : wf ops = true ->
+  In (w, RNil) (results (run c kn ops)) -> success_justified c kn ops w = true.
+Proof.
+  intros W Hr. apply nodupb_NoDup in W. destruct (PS_run c kn ops) as [_ _ Pn _ _].
+  destruct (Pn w Hr) as (h & Hc & Hj). unfold run, run_gen in Hc. rewrite calls_fold_pairs in Hc.
+  cbn [init calls] in Hc. rewrite app_nil_r in Hc. apply in_rev in Hc.
+  unfold success_justified. rewrite (hash_of_call_in w h ops W Hc). apply orb_true_iff. tauto.
 Qed.
 
 (* ---------- T5: every cover is discharged by the event that is due ---------- *)
@@ -433,10 +507,13 @@ Proof.
         apply filter_In. split; [exact Hr | apply N.eqb_refl]. }
       rewrite R in Hin. contradiction.
     + cbn [hd_error]. destruct r0; try reflexivity.
-      apply memb_In. apply success_justified.
-      assert (Hin : In RNil (results_of w (results (run c kn ops)))) by (rewrite R; now left).
-      unfold results_of in Hin. apply in_map_iff in Hin. destruct Hin as ([w1 r1] & E1 & H1).
-      apply filter_In in H1. destruct H1 as [H1 H2]. cbn [fst snd] in *. apply N.eqb_eq in H2. now subst.
+      assert (Hnil : In (w, RNil) (results (run c kn ops))).
+      { assert (Hin : In RNil (results_of w (results (run c kn ops)))) by (rewrite R; now left).
+        unfold results_of in Hin. apply in_map_iff in Hin. destruct Hin as ([w1 r1] & E1 & H1).
+        apply filter_In in H1. destruct H1 as [H1 H2]. cbn [fst snd] in *. apply N.eqb_eq in H2. now subst. }
+      apply andb_true_iff. split.
+      * apply memb_In. now apply success_seen.
+      * now apply success_when_cached.
   - unfold model_obs. rewrite map_length. apply N.eqb_refl.
 Qed.
 
